@@ -17,7 +17,7 @@ def h_lazy(k0: int, k1: int, k2: int, k3: int, k4: int, k5: int, k6: int, k7: in
     reset_run()
     op, kind = op_of(P("op"))
     d = mkdata([k0, k1, k2, k3, k4, k5, k6, k7], [n0, n1, n2, 0], [p0, p1, p2], [b0, b1, b2])
-    o = Opts(fl=[P("fl", "agen")] * 4, ffl=P("ffl", "def"))
+    o = Opts(fl=(P("fls") or [P("fl", "agen")] * 4), ffl=P("ffl", "def"))
     Wa, Ws = World("a"), World("s")
     D = Driver(Wa, sync_only=True)
     steps = None if kind == "agg" else x
@@ -96,6 +96,10 @@ def jobs(tier):
             add("merge", 3, 1 if q else 2, 5 if q else 8, b0=b0, b1=b1)
     for op in ("all", "any"):
         add(op, 1, 4 if q else 6, 0)
+    # callables that work at call time and return an awaitable: every call is a use
+    for op in ("map", "filter", "filterfalse", "takewhile", "dropwhile", "starmap", "accumulate_f", "iter_sentinel"):
+        add(op, 1, 2, 4, ffl="defaw", fl="acls")
+    add("merge", 2, 1, 4, ffl="defaw", b1=True)
     return J
 
 
